@@ -1102,6 +1102,80 @@ func computedFieldsSingle(w *World, r *Report, prop string) {
 					}
 				}
 			}
+			// ... and only of a field that is a plain number *now*: the test of the field's kind is made in the same iteration as the
+			// replacement (the loop over the attributes replaces f.Attr itself; a test hoisted out of it lets a second attribute
+			// silently overwrite the first)
+			{
+				fresh, stale := false, ""
+				var loops []map[*ssa.BasicBlock]bool
+				for _, hb := range fn.Blocks {
+					isHeader := false
+					for _, p := range hb.Preds {
+						if hb.Dominates(p) {
+							isHeader = true
+						}
+					}
+					if isHeader {
+						if lp := naturalLoop(hb); lp[b] {
+							loops = append(loops, lp)
+						}
+					}
+				}
+				for _, bb := range fn.Blocks {
+					cond := branchCond(bb)
+					if cond == nil {
+						continue
+					}
+					tf, refine := fieldTest(cond)
+					if tf == nil || canonField(tf) != canonField(holder) {
+						continue
+					}
+					for succ := 0; succ < 2; succ++ {
+						if refine(stTop, succ == 0).K != 1<<kBasic || !edgeDominates(bb, succ, b) {
+							continue
+						}
+						// where was the field looked at? the instruction the condition is computed by
+						c := cond
+						for {
+							if u, ok := c.(*ssa.UnOp); ok && u.Op == token.NOT {
+								c = u.X
+								continue
+							}
+							break
+						}
+						var at ssa.Instruction
+						switch x := c.(type) {
+						case *ssa.Extract:
+							at, _ = x.Tuple.(ssa.Instruction)
+						case ssa.Instruction:
+							at = x
+						}
+						if at == nil {
+							continue
+						}
+						inAll := true
+						for _, lp := range loops {
+							if !lp[at.Block()] {
+								inAll = false
+							}
+						}
+						if inAll {
+							fresh = true
+						} else {
+							stale = w.instrPos(at)
+						}
+					}
+				}
+				fkey := fmt.Sprintf("%s makes a %s #%d only of a field that is a plain number at that moment", fnKey(fn), kind, cnt)
+				switch {
+				case fresh:
+					r.pass(rule, fkey, w.instrPos(st), "")
+				case stale != "":
+					r.fail(rule, fkey, w.instrPos(st), "the field's kind is tested once ("+stale+"), outside the loop that replaces the field's attribute: a second @lengthOf / @calculatedFrom on the same field passes the stale test and silently overwrites the first (the length link or the checksum disappears from every target, no diagnostic)")
+				default:
+					r.fail(rule, fkey, w.instrPos(st), "no test that the field's attribute is a BasicFieldAttribute dominates the replacement: a string, object or already computed field becomes a "+kind)
+				}
+			}
 			if guarded {
 				r.pass(rule, key, w.instrPos(st), "dominated by !IsRepeat")
 			} else {
@@ -1687,4 +1761,95 @@ func sameCellValue(a, b ssa.Value) bool {
 	}
 	ca, cb := singleAssignCell(a), singleAssignCell(b)
 	return ca != nil && ca == cb
+}
+
+// C12/option-value-as-written: the option table lists the values as they are spelled in the DSL, so what AddOption validates has
+// to be the text the author wrote - the token's text, or that text without its string quotes - and not a normalised form. A helper
+// that turns `'\x00'` into the NUL character before the value is validated makes a documented value fail the membership test: a
+// well-formed DSL is rejected. Decided: the value argument of every AddOption call in the parse phase derives from GetText() through
+// identity, strings.Trim*/TrimSpace and parser helpers whose every returned value does - no constant takes the value's place.
+func optionValueAsWritten(w *World, r *Report, prop string) {
+	rule := prop + "/option-value-as-written"
+	n := 0
+	for _, fn := range parsePhaseFuncs(w) {
+		forEachInstr(fn, func(_ *ssa.BasicBlock, ins ssa.Instruction) {
+			c, ok := ins.(*ssa.Call)
+			if !ok {
+				return
+			}
+			f := c.Call.StaticCallee()
+			if f == nil || f.Name() != "AddOption" || f.Pkg != w.Model || len(c.Call.Args) < 3 {
+				return
+			}
+			n++
+			key := fmt.Sprintf("%s: the option value is validated as it was written", fnKey(fn))
+			var bad string
+			var trace func(v ssa.Value, bs bindings, depth int, seen map[ssa.Value]bool)
+			trace = func(v ssa.Value, bs bindings, depth int, seen map[ssa.Value]bool) {
+				if bad != "" || depth > 10 || v == nil || seen[v] {
+					return
+				}
+				seen[v] = true
+				v = resolveParam(v, bs)
+				switch x := v.(type) {
+				case *ssa.Const:
+					if s, ok := constString(x); ok {
+						bad = fmt.Sprintf("the constant %q can take the place of the written value (%s)", s, w.pos(x.Pos()))
+					}
+				case *ssa.Phi:
+					for _, e := range x.Edges {
+						trace(e, bs, depth+1, seen)
+					}
+				case *ssa.UnOp:
+					if al, ok := x.X.(*ssa.Alloc); ok && al.Referrers() != nil {
+						for _, ref := range *al.Referrers() {
+							if st, ok := ref.(*ssa.Store); ok && st.Addr == ssa.Value(al) {
+								trace(st.Val, bs, depth+1, seen)
+							}
+						}
+					}
+				case *ssa.Call:
+					name := ""
+					if x.Call.IsInvoke() {
+						name = x.Call.Method.Name()
+					} else if g := x.Call.StaticCallee(); g != nil {
+						name = g.Name()
+						if g.Pkg != nil && g.Pkg.Pkg.Path() == "strings" && strings.HasPrefix(name, "Trim") && len(x.Call.Args) > 0 {
+							trace(x.Call.Args[0], bs, depth+1, seen)
+							return
+						}
+						if g.Blocks != nil && (g.Pkg == w.Parser || g.Pkg == w.Model) {
+							nb := bindings{}
+							for k, val := range bs {
+								nb[k] = val
+							}
+							for i, p := range g.Params {
+								if i < len(x.Call.Args) {
+									nb[p] = x.Call.Args[i]
+								}
+							}
+							for _, b := range g.Blocks {
+								if ret, ok := b.Instrs[len(b.Instrs)-1].(*ssa.Return); ok && len(ret.Results) > 0 {
+									trace(ret.Results[0], nb, depth+1, seen)
+								}
+							}
+							return
+						}
+					}
+					if name != "GetText" {
+						bad = "the value goes through " + calleeName(x) + " before it is validated"
+					}
+				}
+			}
+			trace(c.Call.Args[2], bindings{}, 0, map[ssa.Value]bool{})
+			if bad == "" {
+				r.pass(rule, key, w.instrPos(c), "")
+			} else {
+				r.fail(rule, key, w.instrPos(c), bad+": AddOption compares the value with the spellings in the option table, a rewritten value is not among them - a documented value is rejected")
+			}
+		})
+	}
+	if n == 0 {
+		r.fail(rule, "AddOption call found", "internal/parser/packet_dsl_parser.go", "no call of BinaryModel.AddOption in the parse phase")
+	}
 }
